@@ -108,8 +108,10 @@ def report_order(ctx, rep, rule, methods, floor=None):
                 continue
             n += 1
             rep.undecided(rule, fn, node, msg)
-    if floor:
-        rep.floor(rule, 'positional pairings analysed', n, floor)
+    # no floor on the number of pairings: it is a property of how the code is laid out, not of what it computes
+    if n == 0:
+        fn0 = ctx.prog.cls(GM).lookup(methods[0])
+        rep.undecided(rule, fn0, fn0.node.name, 'no positional pairing of ordered values was recognised in ' + ', '.join(methods), construct='positional pairings')
     return n
 
 
